@@ -69,9 +69,10 @@ def tokens(p: dict) -> list[str]:
     raise ValueError(t)
 
 
-def join_tokens(toks: list[str], ws: int = 0) -> str:
-    """canonical text; bit i of `ws` adds a blank at the i-th token boundary (never inside a token,
-    never before the first token)."""
+def join_tokens(toks: list[str], ws: int = 0, blank: str = " ") -> str:
+    """canonical text; bit i of `ws` adds a blank (`blank`: any run of the grammar's ignored whitespace
+    characters - space, tab, LF, CR, FF) at the i-th token boundary (never inside a token, never
+    before the first token)."""
     out = ""
     word = lambda c: c.isalnum() or c == "_"  # noqa: E731
     for i, t in enumerate(toks):
@@ -82,7 +83,7 @@ def join_tokens(toks: list[str], ws: int = 0) -> str:
             elif prev == "$" or prev == "@":
                 pass  # keep sigils attached unless a blank is requested
             if ws >> (i - 1) & 1 and not out.endswith(" "):
-                out += " "
+                out += blank
         out += t
     return out
 
